@@ -183,3 +183,49 @@ impl PeerIdRegistryFull {
         None
     }
 }
+
+// ---- PeerIdRegistry::on_transmit: one entry selected by `.filter(|i| i.transmission_interest().can_transmit(..))` -------
+// "it only retires peer IDs the peer actually issued, and never sends a RETIRE_CONNECTION_ID frame inside a packet addressed
+// with the very ID being retired": the frame names exactly the entry's sequence number (an id the peer issued: it is
+// registered), the entry was pending retirement -- i.e. NOT active, while packets are addressed with active ids only
+// (statements above) -- and it becomes PendingAcknowledgement iff the frame was written.
+#[derive(Clone, Copy)]
+pub struct PacketNumberX { pub v: u64 }
+pub struct VarIntX { pub v: u64 }
+pub trait ToVarInt { spec fn as_int(self) -> int; fn to_varint(self) -> (r: VarIntX) ensures r.v as int == self.as_int(); }
+impl ToVarInt for u32 {
+    open spec fn as_int(self) -> int { self as int }
+    fn to_varint(self) -> (r: VarIntX) { VarIntX { v: self as u64 } }
+}
+pub struct RetireConnectionIdX { pub sequence_number: VarIntX }
+pub struct WriteContextX { pub last_seq: Ghost<int>, pub wrote: Ghost<bool> }
+impl WriteContextX {
+    #[verifier::external_body]
+    pub fn write_frame(&mut self, f: &RetireConnectionIdX) -> (r: Option<PacketNumberX>)
+        ensures final(self).last_seq@ == f.sequence_number.v as int, final(self).wrote@ == r is Some,
+    { unimplemented!() }
+}
+pub struct MemoX { pub dummy: u8 }
+impl MemoX {
+    #[verifier::external_body]
+    pub fn clear(&self) { unimplemented!() }
+}
+pub enum PeerIdStatusFull { New, InUse, InUsePendingNewConnectionId, PendingRetirement, PendingRetirementRetransmission, PendingAcknowledgement(PacketNumberX) }
+pub struct PeerIdInfoTx { pub sequence_number: u32, pub status: PeerIdStatusFull }
+pub struct PeerIdRegistryTx { pub transmission_interest: MemoX, pub ack_interest: MemoX, pub retire_prior_to: u32 }
+impl PeerIdRegistryTx {
+    fn on_transmit_loop_body(&mut self, id_info: &mut PeerIdInfoTx, context: &mut WriteContextX)
+        requires
+            // established by the dropped header: transmission_interest() != None <=> PendingRetirement / ..Retransmission
+            old(id_info).status is PendingRetirement || old(id_info).status is PendingRetirementRetransmission,
+        ensures
+            final(context).last_seq@ == old(id_info).sequence_number as int,
+            final(id_info).sequence_number == old(id_info).sequence_number,
+            final(context).wrote@ ==> final(id_info).status is PendingAcknowledgement,
+            !final(context).wrote@ ==> (final(id_info).status is PendingRetirement) == (old(id_info).status is PendingRetirement)
+                && (final(id_info).status is PendingRetirementRetransmission) == (old(id_info).status is PendingRetirementRetransmission),
+    {
+        use PeerIdStatusFull::PendingAcknowledgement;
+//@ splice-stmts quic/s2n-quic-transport/src/connection/peer_id_registry.rs "PeerIdRegistry" on_transmit "from=for id_info in self" inner=1 "subst=frame::RetireConnectionId=>RetireConnectionIdX@@.into()=>.to_varint()"
+    }
+}
